@@ -227,7 +227,7 @@ static void stat_check(const Json& c, Out& o) {
     for (double e : {p.T - p.W / 2, p.T + p.W / 2, p.T}) {
         double a = amp_of(e), up = a, dn = a;
         amp.push_back(a);
-        for (int j = 0; j < 4; ++j) { up = std::nextafter(up, 1e300); dn = std::nextafter(dn, 0.0); amp.push_back(up); amp.push_back(dn); }
+        for (int j = 0; j < 96; ++j) { up = std::nextafter(up, 1e300); dn = std::nextafter(dn, 0.0); amp.push_back(up); amp.push_back(dn); }   // every double within 96 ulp: some of them have a computed level EXACTLY on the edge
         for (double d : {1e-9, 1e-6, 1e-3}) { amp.push_back(amp_of(e + d)); amp.push_back(amp_of(e - d)); }
     }
     std::sort(amp.begin(), amp.end());
